@@ -151,6 +151,15 @@ Theorem compose_transfers : forall A B EA EB fA fB capA capB kB,
 Proof. exact compose_transfers_l. Qed.
 Print Assumptions compose_transfers.
 
+Example compose_hypotheses_satisfiable :
+  mono idf /\ mono (unpack 2) /\ lip (unpack 2) 2 /\
+  (Safe regDownS ETrue idf /\ Lag regDownS ETrue idf 1) /\
+  (Safe (reduceS 2) (EHold (reduceS 2)) (unpack 2) /\ Lag (reduceS 2) (EHold (reduceS 2)) (unpack 2) 0).
+Proof.
+  repeat split; [apply mono_id | apply mono_unpack | apply lip_unpack | apply regDown_Good | apply regDown_Good
+                | apply (reduce_Good 2); repeat constructor | apply (reduce_Good 2); repeat constructor].
+Qed.
+
 Theorem compose_strong : forall A B EA EB fA fB,
   mono fB -> Strong A EA fA -> Strong B EB fB -> Strong (compose A B) (Ecomp A B EA EB) (fun l => fB (fA l)).
 Proof. exact compose_strong_l. Qed.
@@ -187,6 +196,11 @@ Theorem stage_transfers_unconditional : forall d cs, wfd d -> no_reduce d ->
 Proof. exact chain_transfers_strong_l. Qed.
 Print Assumptions stage_transfers_unconditional.
 
+Example unconditional_chain_example :
+  let d := chainOf [DStall 1; DExtend 3; DRegDecouple; DStall 0; DDelay 2] in
+  wfd d /\ no_reduce d /\ capd d = 4.
+Proof. cbv zeta. split; [simpl; intuition lia|]. split; [simpl; tauto | reflexivity]. Qed.
+
 Example chain_example :
   let d := chainOf [DRegDown; DExtend 2; DStall 0; DRegReady; DReduce 2; DDelay 3] in
   wfd d /\ capd d = 7 /\ kd d = 2 /\
@@ -215,6 +229,11 @@ Print Assumptions stage_hold_registers.
 Theorem stage_hold_unconditional : forall d cs, gives_hold d = true -> holdW (outW (trace (denote d) cs)).
 Proof. exact stage_hold_uncond_l. Qed.
 Print Assumptions stage_hold_unconditional.
+
+Example gives_hold_example :
+  gives_hold (chainOf [DStall 0; DReduce 2; DExtend 3; DRegReady]) = true /\
+  gives_hold (chainOf [DRegDown; DStall 0]) = false /\ gives_hold (DDelay 0) = false /\ gives_hold (DDelay 2) = true.
+Proof. repeat split. Qed.
 
 (* every chain: if the producer holds and every stall stage is polite (its condition does not rise in
    the cycle after a beat was valid and not accepted at that stall's own output) the output holds *)
@@ -258,6 +277,14 @@ Theorem register_stages_live :
   Live regDownS 1 /\ Live blockS 1 /\ Live readyS 1 /\ Live decoupleS 2 /\ (forall n, Live (delayS n) n).
 Proof. exact register_stages_live_l. Qed.
 Print Assumptions register_stages_live.
+
+Example live_example :
+  (* two beats accepted by delay 3 while the consumer stalls; three ready cycles later both are out *)
+  let b x := mkBeat true [x] false 0%N in let idle := mkBeat false [0%N] false 0%N in
+  let cs1 := [mkCyc [] (b 1%N) false; mkCyc [] (b 2%N) false] in
+  let cs2 := [mkCyc [] idle true; mkCyc [] idle false; mkCyc [] idle true; mkCyc [] idle true] in
+  count_rdy cs2 = 3 /\ length (Tin (trace (delayS 3) cs1)) = 2 /\ length (Tout (trace (delayS 3) (cs1 ++ cs2))) = 2.
+Proof. repeat split; vm_compute; reflexivity. Qed.
 
 (* liveness is NOT closed under composition: regDownstreamBlocking moves only while ready is high
    ("violates stream semantics", utils.h), an idle reduceWidth keeps ready low: nothing is ever accepted *)
